@@ -1050,6 +1050,79 @@ fn real_main() {
             total.merge(rep);
             bounds.insert("long".into(), json!({"lens": lens.len(), "max_len": lens.last(), "rule": "V*{255,256,257} + {0,1,V-1,V,V+1,2V+3} for V in {8,16,32,64,128}; V*65536+V+1 for V in {8,16,32} (thorough: also V*{65535,65536,65537,131072})"}));
         }
+        // Huge haystacks (1..2 MiB; thorough 16 MiB) at start addresses that are
+        // page aligned, one byte off either way and mid-page: code gated on an
+        // absolute size or on the address modulo the page size.
+        "huge" => {
+            let subj_s: Vec<Subject> = args.str("subjects", "swar,sse2,avx2,top").split(',').map(Subject::parse).collect();
+            let mut lens: Vec<usize> = vec![(1 << 20) - 1, 1 << 20, (1 << 20) + 4097, (1 << 21) + 33];
+            if thorough {
+                lens.extend_from_slice(&[(1 << 22) + 1, 1 << 24]);
+            }
+            let starts = [0usize, 1, 2048, 4064, 4095];
+            let items: Vec<(usize, usize)> = lens.iter().flat_map(|&l| starts.iter().map(move |&a| (l, a))).collect();
+            let rep = par::run_items(&items, |_, &(len, a), r| {
+                let mut big = Arena::plain(len / 4096 + 3);
+                let mut data = vec![other; len];
+                let mut positions: Vec<(Option<usize>, Option<usize>)> = vec![(None, None)];
+                for p in [0usize, 1, 31, 32, 4095, 4096, 4097, len / 2, len - 4097, len - 4096, len - 33, len - 1] {
+                    positions.push((Some(p), None));
+                }
+                for (p, q) in [(0usize, len - 1), (4095, 4096), (10, 5000), (len - 5000, len - 10), (4096 - a.min(4096), len / 2)] {
+                    if p < q && q < len {
+                        positions.push((Some(p), Some(q)));
+                    }
+                }
+                let mut order = 0u64;
+                for k in 1..=3u8 {
+                    for &(pos, pos2) in &positions {
+                        for (pp, role) in [(pos, 0usize), (pos2, (k as usize) - 1)] {
+                            if let Some(p) = pp {
+                                data[p] = nd[role];
+                            }
+                        }
+                        // the arena's read/write part starts on a page boundary
+                        let hay = big.place_fill(a, &data, other, other, 0);
+                        order += 1;
+                        r.states += 1;
+                        for &s in &subj_s {
+                            for &op in &ops {
+                                if op == Op::Count && k != 1 {
+                                    continue;
+                                }
+                                r.evaluations += 1;
+                                r.nontrivial += 1;
+                                r.bump(&format!("calls/{}", s.name()));
+                                let exp = expected(k, op, nd, hay);
+                                let got = guarded(|| call(s, k, op, nd, hay));
+                                let bad = match &got {
+                                    Err(m) => Some(("panic", format!("panicked: {}", m))),
+                                    Ok(o) if o.res != exp => Some(("wrong_result", format!("returned {:?}, reference {:?}", o.res, exp))),
+                                    Ok(o) => o.raw_problem.clone().map(|p| ("raw_form", p)),
+                                };
+                                if let Some((class, what)) = bad {
+                                    r.violation(Violation {
+                                        class: class.into(),
+                                        key: ((len as u64) << 16) | order,
+                                        what: format!("[{}] {} {}{} on a {}-byte haystack starting {} bytes past a page boundary with matches at ({:?}, {:?}): {}", class, s.name(), op.name(), k, len, a, pos, pos2, what),
+                                        replay_argv: vec!["huge".into(), "--subjects".into(), s.name(), "--ops".into(), op.name().into()],
+                                        detail: json!({"class": class, "subject": s.name(), "op": op.name(), "k": k, "len": len, "start_mod_page": a, "pos": pos, "pos2": pos2}),
+                                    });
+                                }
+                            }
+                        }
+                        for pp in [pos, pos2] {
+                            if let Some(p) = pp {
+                                data[p] = other;
+                            }
+                        }
+                    }
+                }
+                r.sample(len as u64, || json!({"len": len, "start_mod_page": a}));
+            });
+            total.merge(rep);
+            bounds.insert("huge".into(), json!({"lens": lens, "start_mod_4096": starts, "matches": "none; one at {0,1,31,32,4095,4096,4097,len/2,len-4097,len-4096,len-33,len-1}; five pairs"}));
+        }
         // Long haystacks with ONE match near either end (or none), at the
         // lengths where code gated on a length threshold - absolute (256,
         // 1024, 2048, 4096) or a multiple of the vector size - would first
